@@ -456,6 +456,9 @@ alg_wrap_unw(const jose_hook_alg_t *alg, jose_cfg_t *cfg, const json_t *jwe,
         return kw->wrap.unw(kw, cfg, jwe, rcp, der, cek);
     }
 
+    if (!no_encrypted_key(rcp))
+        return false;
+
     return json_object_update(cek, der) == 0;
 }
 
